@@ -25,6 +25,7 @@ CLANG_FLAGS = ['-std=c++17', '-O0', '-Xclang', '-disable-O0-optnone', '-fno-exce
                '-ffp-contract=off', '-fno-access-control', '-fno-threadsafe-statics', '-D' + GUARD,
                '-I' + os.path.join(LIB, 'include'), '-I' + LIB, '-I' + VF, '-I' + os.path.join(VERIF, 'harness'),
                '-Wno-everything', '-S', '-emit-llvm']
+FRONTEND_VERSION = 'fe-3'   # bump when build_variant's pipeline changes
 OPT_PASSES = 'function(mem2reg,simplifycfg,early-cse,adce,loop-simplify),globaldce'
 
 BACKENDS = {
@@ -72,17 +73,18 @@ def source_files():
         for f in files:
             if f.endswith(('.h', '.cpp')):
                 out.append(os.path.join(root, f))
-    for d in (VF, os.path.join(VERIF, 'harness')):
-        for f in os.listdir(d):
-            if f.endswith(('.py', '.h', '.c')):
-                out.append(os.path.join(d, f))
+    # front-end inputs only: the translator and the headers harness TUs include (run.py itself is covered by FRONTEND_VERSION)
+    out += [os.path.join(VF, 'ir2c.py'), os.path.join(VF, 'harness.h')]
+    for f in os.listdir(os.path.join(VERIF, 'harness')):
+        if f.endswith('.h'):
+            out.append(os.path.join(VERIF, 'harness', f))
     return out
 
 _src_hash = None
 def src_hash():
     global _src_hash
     if _src_hash is None:
-        _src_hash = file_hash(source_files())
+        _src_hash = file_hash(source_files()) + FRONTEND_VERSION + repr(CLANG_FLAGS[:-7]) + OPT_PASSES
     return _src_hash
 
 class BuildError(Exception):
@@ -388,7 +390,7 @@ def run_obligation(o, tier, outdir):
     if o.kind == 'irscan':
         return run_irscan(o, tier, outdir)
     info = build_variant(o)
-    timeout = o.timeout or (90 if tier == 'quick' else 900)
+    timeout = o.timeout or (150 if tier == 'quick' else 900)
     rec = dict(name=o.name, harness=o.fn, tu=o.tu, defs=list(o.defs), bound=o.bound, desc=o.desc, unwind=o.unwind,
                replaced=info['replaced'], lifted=info.get('lifted', []), runs=[])
     # witness (first backend, sat default is fine for witness unless pinned)
@@ -706,11 +708,13 @@ def main():
             errors.append('%s: back ends disagree' % o.name)
         elif rec['verdict'] == 'SUCCESS' and rec.get('witness_replay') and any(rc != 0 for rc, _ in rec['witness_replay']):
             errors.append('%s: CBMC proved the harness but its own witness run does not complete natively (model/native mismatch): %s' % (o.name, rec['witness_replay']))
+        elif rec['verdict'] == 'SUCCESS' and not rec['witness']['reached'] and rec['witness']['verdict'] in ('TIMEOUT', 'ERROR', 'CANCELLED'):
+            rec['verdict'] = 'INCONCLUSIVE'; rec['why'] = 'property query succeeded but the vacuity-witness query did not finish (%s): not counted' % rec['witness']['verdict']
         elif rec['verdict'] == 'SUCCESS' and not rec['witness']['reached']:
             errors.append('%s: vacuity witness not reached (assumptions unsatisfiable or harness end unreachable; witness verdict %s)' % (o.name, rec['witness']['verdict']))
         rec.pop('_info', None); rec.pop('_text', None)
     for k in knowns:
-        log('KNOWN-FINDING: property=%s %s' % (pid, k['entry']))
+        log('KNOWN-FINDING: property=%s %s' % (pid, re.sub(r'^finding:\s*property=\S+\s*', '', k['entry'])))
     for v in violations:
         log('VIOLATION property=%s replay=%s  (%s: %s)' % (pid, v['replay'], v['obligation'], v['desc']))
     for u in ub_notes:
